@@ -64,6 +64,14 @@ def check_total_stored(ctx):
                     ((U(par.test).replace(' ', '') == 'totalisNone' and s_ in par.body) or
                      (U(par.test).replace(' ', '') == 'totalisnotNone' and s_ in par.orelse)):
                 cond = True          # the default, on the path where no total was given
+            if t in ('float(total)', 'np.float64(total)', 'numpy.float64(total)'):
+                # the total is only ever used in float arithmetic (log, *, /): float() of a number is that number
+                ctx.ob('total-stored', init, s_, True, 'the caller\'s total, converted to a float (the value is kept): `%s`' % U(v)[:60])
+                continue
+            if t in ('int(total)', 'round(total)', 'int(round(total))', 'np.int64(total)', 'math.floor(total)', 'math.ceil(total)'):
+                ctx.ob('total-stored', init, s_, False, 'the total the oracle normalises to is stored as `%s`: a total is a real number (an estimate, a weighted count) - '
+                       'truncating it changes what the marginals sum to (0.75 becomes 0: all-zero marginals)' % U(v)[:60])
+                continue
             if not plain and not cond and not (isinstance(v, ast.BoolOp) and any(U(x) == 'total' for x in v.values)):
                 raise AnalysisError('%s.__init__: `%s` is in no recognised form' % (cls, U(s_)[:70]))
             ctx.ob('total-stored', init, s_, plain or cond,
